@@ -140,7 +140,7 @@ def classify_delete_site(ctx, ds, depth=0):
     return None
 
 
-@rule("C12.DELETE-SITES", ["C12"], """every call of a file-system deletion API deletes one of: a file listed (with the extension filter) under a declared output, a declared
+@rule("C12.DELETE-SITES", ["C12", "C08", "C18"], """every call of a file-system deletion API deletes one of: a file listed (with the extension filter) under a declared output, a declared
       output path, a project's work directory, a target's state file - decided from the provenance of the deleted path; nothing else in the crate deletes""", "K4", floor=4)
 def delete_sites_rule(ctx):
     sites = delete_sites(ctx)
@@ -153,7 +153,15 @@ def delete_sites_rule(ctx):
         k = seen.get(inst, 0)
         seen[inst] = k + 1
         ctx.check(role is not None, f"{inst}@{k}", [site(ds.view, ds.bb)], "a file-system deletion whose path is neither a declared output (or a file listed under it), nor a work directory, nor a state file: `--clean` or a normal run could delete something that was never declared",
-                  detail=role or "")
+                  detail=role or "", props=["C12"])
+        # whole work directories (the recorded state of *every* target of a project) and declared outputs are only ever removed by main (`--clean`): the
+        # engine itself may drop one target's own state file, nothing more
+        if role in ("workdir", "output-filtered", "output-plain"):
+            in_main = ds.view.name in (ctx.r.main_async().name, ctx.r.main_body().name)
+            ctx.check(in_main, f"{inst}/only-from-main@{k}", [site(ds.view, ds.bb)],
+                      ("a whole work directory is removed from inside the engine: the recorded state of targets outside the requested closure (and of other invocations) disappears"
+                       if role == "workdir" else "declared outputs are removed from inside the engine"),
+                      props=["C12", "C08", "C18"] if role == "workdir" else ["C12", "C08"])
 
 
 @rule("C12.OUTPUT-ONLY", ["C12"], """the paths deleted by output cleaning derive from the target's declared *outputs* only, never from its inputs""", "K5", floor=1)
@@ -537,6 +545,11 @@ def same_predicate(ctx):
         for b in subtree(f, on):
             for bb, t in b.calls():
                 d = callee_decl(t)
+                if re.search(r"Iterator>?::(skip|take|step_by|skip_while|take_while|nth|last|rev)(::<.*>)?$", d) or re.search(r"Path::(parent|file_name|extension|file_stem)$", callee_base(t)):
+                    # the test must look at every component of the path (the directory itself as well as what lies beneath it)
+                    if re.search(r"Iterator>?::(skip|take|step_by|skip_while|take_while|nth|last)(::<.*>)?$", d) and f.bodies[on].ret == "bool" and "Path" in f.bodies[on].locals[1]["ty"]:
+                        ctx.bad(f"{short(on)}/every-component", [site(b, bb)],
+                                f"the work-dir test skips part of the path (`{d.split('::')[-1]}`): e.g. events on the work directory itself are not recognised and trigger a rebuild loop")
                 dflt = None
                 if re.search(r"Option::<.*>::unwrap_or(::<.*>)?$|Result::<.*>::unwrap_or(::<.*>)?$", d) and len(t["args"]) > 1:
                     dflt = const_val(t["args"][1])
@@ -684,6 +697,19 @@ def normalise(ctx):
             if fmt and consts:
                 ok_dot = True
         ctx.check(ok_dot, f"{short(fn.name)}/leading-dot", [site(b, bb) for b, bb, t in dots] or [fn.loc()], "a missing leading dot is not added to a declared extension")
+        # order of the two steps: an entry is tested for emptiness as written, *before* the dot is added (afterwards "" has become "." and survives)
+        def clos_of(b, t):
+            return [a[1] for x in t["args"][1:] for a in b.prov.operand_atoms(x, interproc=False) if a[0] == "closure"]
+        for b in bodies:
+            filt_calls = [(bb, t) for bb, t in b.calls() if re.search(r"Iterator>?::filter(::<.*>)?$", callee_decl(t)) and
+                          any(any(re.search(r"String::is_empty$|str>::is_empty$", callee_base(tt)) for _, tt in f.bodies[c].calls()) for c in clos_of(b, t) if c in f.bodies)]
+            map_calls = [(bb, t) for bb, t in b.calls() if re.search(r"Iterator>?::map(::<.*>)?$", callee_decl(t)) and
+                         any(any("starts_with" in callee_base(tt) for _, tt in f.bodies[c].calls()) for c in clos_of(b, t) if c in f.bodies)]
+            for (fb_, ft) in filt_calls:
+                for (mb_, mt) in map_calls:
+                    filter_after_map = operand_local(ft["args"][0]) in b.prov.flows_forward(mt["dest"]["local"])
+                    ctx.check(not filter_after_map, f"{short(fn.name)}/empty-dropped-before-dot", [site(b, fb_)],
+                              "empty entries are filtered out only after the leading dot was added: `\"\"` becomes `\".\"`, survives, and turns `no filter` into a filter matching names ending in a dot")
         setempty = [(b, bb) for b, bb, t in calls if re.search(r"BTreeSet::<.*>::is_empty$", callee_decl(t))]
         filt = [(b, bb) for b, bb, t in calls if re.search(r"Option::<.*BTreeSet.*>::filter", callee_decl(t))]
         ctx.check(bool(setempty) and (bool(filt) or True), f"{short(fn.name)}/empty-set-is-none", [site(b, bb) for b, bb in setempty] or [fn.loc()], "an empty extension list is not turned into `no filter`")
@@ -1029,7 +1055,7 @@ def identity(ctx):
             ctx.check({"project_name", "target_name"} <= allf, "Display", [x.loc()], f"Display of TargetId prints {sorted(allf & {'project_name', 'target_name'})} only: state files / offered names of different projects collide")
 
 
-@rule("C13.FROM-INPUT-LIST-INTACT", ["C13", "C09", "C02"], """the list of `X.output` producers returned by the target transformation reaches the inheritance/validation loop intact: nothing is removed
+@rule("C13.FROM-INPUT-LIST-INTACT", ["C13", "C09", "C02", "C01"], """the list of `X.output` producers returned by the target transformation reaches the inheritance/validation loop intact: nothing is removed
       from it, and the loop ranges over all of it""", "K5", floor=1)
 def from_input_list_intact(ctx):
     f = ctx.f
@@ -1052,12 +1078,26 @@ def from_input_list_intact(ctx):
         inner = f.cg.reach(list(tfn), cross_spawn=False)
         spliced = {callee_base(t) for _, t in b.calls() if t.get("inlined") or t.get("inlined_async")}   # their code is part of this view: judged by what it does
         odd += sorted(short(c) for c in atom_callres(it_atoms) if c in f.bodies and c not in tfn and c not in inner and c not in spliced and not f.is_derived(f.bodies[c]))
-        ctx.check(not odd, f"{short(b.name)}/loop-over-whole-list", [site(b, nbb)], f"the inheritance loop ranges over a filtered list ({odd}): some `X.output` producer is neither validated nor inherited")
-    ctx.check(ok, f"{short(b.name)}/loop", [b.loc()], "no loop over the `X.output` producers that extends the consumer's input")
+        ctx.check(not odd, f"{short(b.name)}/loop-over-whole-list", [site(b, nbb)], f"the inheritance loop ranges over a filtered list ({odd}): some `X.output` producer is neither validated nor inherited", props=["C13", "C09", "C02"])
+    ctx.check(ok, f"{short(b.name)}/loop", [b.loc()], "no loop over the `X.output` producers that extends the consumer's input", props=["C13", "C09", "C02"])
+    # upstream of the resolver: every place that obtains (resources, producers) from the input transformation hands the producers on - a target kind
+    # whose `X.output` references are dropped would neither wait for X nor inherit from it (nor have X validated)
+    in_fns = [x for x in f.user_bodies() if x.kind in ("Fn", "AssocFn") and re.search(r"Result<\([\w:]*Resources, std::vec::Vec<[\w:]*TargetId>\)", x.ret)]
+    for x in in_fns:
+        for (cn, cbb) in f.cg.call_sites.get(x.name, ()):
+            cb = f.bodies[cn]
+            if cbb is None or f.is_derived(cb) or cb.term(cbb)["k"] != "call":
+                continue
+            fl = cb.prov.flows_forward(cb.term(cbb)["dest"]["local"])
+            vec_locals = [l for l in fl if re.search(r"^std::vec::Vec<[\w:]*TargetId>$", cb.locals[l]["ty"])]
+            handed_on = any(0 in cb.prov.flows_forward(l) or l == 0 for l in vec_locals)
+            ctx.check(handed_on, f"{short(ctx.r.outer_fn(cb).name)}/producers-handed-on@{cbb}", [site(cb, cbb)],
+                      "the `X.output` producers found in this target's input are dropped: X is not scheduled before the target, not validated and its outputs are not inherited",
+                      props=["C13", "C09", "C01"])
     muts = []
     for bb, t in b.calls():
         if re.search(r"Vec::<[\w:]*TargetId>::(retain|retain_mut|dedup\w*|drain|truncate|remove|swap_remove|pop|clear|split_off)(::<.*>)?$", callee_decl(t)):
             at = b.prov.operand_atoms(t["args"][0], interproc=False)
             if atom_callres(at) & tfn:
                 muts.append(bb)
-    ctx.check(not muts, f"{short(b.name)}/not-mutated", [site(b, x) for x in muts] or [b.loc()], "entries are removed from the list of `X.output` producers before it is inherited/validated")
+    ctx.check(not muts, f"{short(b.name)}/not-mutated", [site(b, x) for x in muts] or [b.loc()], "entries are removed from the list of `X.output` producers before it is inherited/validated", props=["C13", "C09", "C02"])
